@@ -103,6 +103,35 @@ def expand(cases, out):
     return n
 
 
+def foreign_tail(cases, defs, out):
+    """derived requests: after the name of a subcommand the user types the name of an ARGUMENT the enclosing level
+    declares (that level takes it, wherever it stands) and asks for completion of a fresh word: the names of the
+    command that was entered are still to be offered (the lower bound is the one of the same line without that name;
+    the values of that argument's completer and its placeholder may be offered too)"""
+    dmap = {d["id"]: d for d in defs}
+    n = 0
+    with open(out, "w") as w:
+        for c in read_ndjson(cases):
+            d = dmap[c["def"]]
+            if c["partial"] != "" or c.get("pending") or d["tail"]["kind"] != "cmd" or not c["line"]:
+                continue
+            first = c["line"][0]
+            cmds = [k for k in d["tail"]["cmds"] if first["t"] == "word" and first["s"] in k["names"] + k["shorts"]]
+            if not cmds or any(it["t"] != "word" and it.get("s") in sum([a["shorts"] + a["longs"] for a in d["named"]], []) for it in c["line"]):
+                continue
+            for a in d["named"]:
+                if a["kind"] != "arg" or a.get("hidden") or a.get("adj") or not (a["shorts"] + a["longs"]):
+                    continue
+                inner = [x for lv in D.all_levels(cmds[0]["level"]) for x in lv["named"]]
+                if any(set(a["shorts"] + a["longs"]) & set(x["shorts"] + x["longs"]) for x in inner):
+                    continue
+                nm = (a["longs"] + a["shorts"])[0]
+                e = dict(c["expect"], may=sorted(set(c["expect"]["may"]) | set(a.get("completer") or []) | {"--"}), hint="")
+                w.write(json.dumps(dict(c, line=c["line"] + [{"t": "name", "s": nm, "v": "", "txt": nm}], expect=e, foreign=True)) + "\n")
+                n += 1
+    return n
+
+
 def random_partial(rnd, d):
     longs, shorts, cmds = [], [], []
     for lvl in D.all_levels(d):
@@ -216,6 +245,16 @@ def run(v):
     summ = run_replay(hbin, dpath, cases, mm)
     for m in read_ndjson(mm):
         v.report(sig(m), {k: m[k] for k in m if k != "def_full"} | {"def": m.get("def_full", m.get("def"))})
+    # an enclosing level's argument typed inside a subcommand does not hide the subcommand's names
+    fcases = os.path.join(WORK, f"C14-{v.tier}-fcases.ndjson")
+    fn = foreign_tail(cases, fam, fcases)
+    fmm = os.path.join(WORK, f"C14-{v.tier}-fmm.ndjson")
+    if fn:
+        run_replay(hbin, dpath, fcases, fmm)
+        for m in read_ndjson(fmm):
+            s_ = sig(m)
+            s_["foreign_argument_typed"] = True
+            v.report(s_, {k: m[k] for k in m if k != "def_full"} | {"def": m.get("def_full", m.get("def"))})
     # one level with choices, adjacent groups and adjacent subcommands (GroupLine.tla)
     gfam = group_comp_family(SEED + 2140, 16 if q else 60, 1200 if q else 8000)
     gpath = os.path.join(WORK, f"C14-{v.tier}-gdefs.ndjson")
@@ -242,7 +281,7 @@ def run(v):
     tv = driver(v, hbin, comp_family(SEED + 1140, 30 if q else 120, maxlen=2, budget=10**9), 12000 if q else 200000)
     cov = {"driver_requests_validated_by_tlc": tv, "states": meta["distinct"], "transitions": meta["states"], "traces_validated_against_impl": summ["cases"] + gsumm["cases"] + tsumm["cases"],
            "definitions": len(fam) + len(gfam) + len(tfam), "completion_requests": n + gn + tn, "group_states": gmeta["distinct"], "tree_states": tmeta["distinct"], "tree_completion_requests": tn,
-           "group_completion_requests": gn, "impl_classes": summ["classes"],
+           "group_completion_requests": gn, "impl_classes": summ["classes"], "requests_after_an_enclosing_argument": fn,
            "distinct_nontrivial": n,
            "samples": [{"def": c["def"], "line": [i["txt"] for i in c["line"]], "partial": c["partial"], "must": c["expect"]["must"],
                         "may": c["expect"]["may"]} for c in sample_cases(cases, 3, lambda c: len(c["line"]) >= 1 and c["expect"]["must"])],
